@@ -96,6 +96,14 @@ var stmtForms = []struct{ name, body string }{
 	{"func-values", "\tf := g\n\th := func(x int) int {\n\t\treturn x * 2\n\t}\n\tf(a)\n\th(b)\n\treturn f(a) + h(b)\n"},
 	{"return-builtins", "\tq := grow(mk(a), b)\n\treturn q[2] + size(q) + len(conv(a))\n"},
 	{"expr-stmt-paren", "\t(g(a))\n\treturn (a + (b))\n"},
+	{"case-lists", "\tr := 0\n\tswitch a {\n\tcase 1, 2:\n\t\tr = 1\n\tcase g(b), b, 7:\n\t\tr = 2\n\tdefault:\n\t\tr = 3\n\t}\n\tswitch {\n\tcase ok(a), ok(b):\n\t\tr += 10\n\tcase a == b, a+1 == b:\n\t\tr += 20\n\t}\n\tfor i := 0; i < 2; i++ {\n\t\tswitch i + a {\n\t\tcase 0, 1:\n\t\t\tcontinue\n\t\tcase 2, 3:\n\t\t\tbreak\n\t\t}\n\t\tr += 100\n\t}\n\treturn r\n"},
+	{"variadic-calls", "\tt := &T{v: a}\n\tsum(a)\n\tsum(a, 1, b)\n\tsum(a, mk(b)...)\n\tt.vs()\n\tt.vs(1, 200)\n\tx := sum(a, b) + t.vs(7, 8, 9)\n\tif x > 3 {\n\t\treturn sum(x, mk(b)...)\n\t}\n\treturn spread(a, b)\n"},
+	{"blank-params", "\tx := bp(a, b, 5)\n\tbp(1, 2, 3)\n\ty := bq(a, b)\n\treturn x + y + bp(b, a, a)\n"},
+}
+
+var stmtExtras = map[string]string{
+	"variadic-calls": "func sum(base int, rest ...int) int {\n\tfor _, r := range rest {\n\t\tbase += r\n\t}\n\treturn base\n}\n\nfunc (t *T) vs(rest ...byte) int {\n\tn := t.v\n\tfor _, r := range rest {\n\t\tn += int(r * r)\n\t}\n\treturn n\n}\n\nfunc spread(x int, y int) int {\n\treturn sum(x, mk(y)...)\n}\n\n",
+	"blank-params":   "func bp(_ int, _ int, c int) int {\n\td := c + 1\n\treturn d\n}\n\nfunc bq(_ int, _ int) int {\n\treturn 4\n}\n\n",
 }
 
 func genStmtProgs() []*Prog {
@@ -109,6 +117,7 @@ func genStmtProgs() []*Prog {
 		if f.name == "return-builtins" {
 			extra = "func grow(s []int, x int) []int {\n\treturn append(s, x)\n}\n\nfunc size(s []int) int {\n\treturn len(s)\n}\n\nfunc conv(x int) string {\n\treturn string(rune(65 + x%2))\n}\n\n"
 		}
+		extra += stmtExtras[f.name]
 		body := f.body
 		if f.name == "append-forms" {
 			// a bare append(...) is not valid Go; drop it (kept out of the subset)
@@ -173,7 +182,7 @@ func checkC07(tier string, seed int64) int {
 	c.Cov("vm_instructions_monitored", mon.Steps)
 	c.Cov("opcodes_visited_n", len(ops))
 	c.Cov("paths_compared", st.compared)
-	c.Cov("rule", "programs: a list of statement forms (blank identifiers, multi-value assignment, calls as for init/post and as case expressions, if/switch with init calls, expression-less return, compound assignment to fields/elements/map entries, &&/|| over calls, range over call results, const/var blocks, func values), the C06 control skeletons, C08 scope programs, C09 call forms, C11 slice histories and C12 struct programs; on every feasible path (inputs symbolic) the monitors m1–m5, m7 run at every iteration of the real dispatch loop: per-pc operand depth equal on every visit and never negative, pc inside the function, `$` operands below the frame's slot count, every instruction's stack effect (calls: −consumed +requested), RETURN k with exactly k values, nothing left when a function body falls off its end, caller locals identical across calls; and the results are compared with Go")
+	c.Cov("rule", "programs: a list of statement forms (blank identifiers, multi-value assignment, calls as for init/post and as case expressions, if/switch with init calls, expression-less return, compound assignment to fields/elements/map entries, &&/|| over calls, range over call results, const/var blocks, func values, case lists, variadic calls incl. spread in return position, blank parameters), the C06 control skeletons, C08 scope programs, C09 call forms, C11 slice histories and C12 struct programs; on every feasible path (inputs symbolic) the monitors m1–m5, m7 run at every iteration of the real dispatch loop: per-pc operand depth equal on every visit and never negative, pc inside the function, `$` operands below the frame's slot count, every instruction's stack effect (calls: −consumed +requested), RETURN k with exactly k values, nothing left when a function body falls off its end, caller locals identical across calls; and the results are compared with Go")
 	c.Assumption("CFG paths that no input can take are not covered; stack effects per opcode are the monitor's specification (read off do.go)")
 	return c.Finish(false)
 }
